@@ -642,6 +642,15 @@ func (a *ArgvGen) Step() bool {
 		a.Kinds = append(a.Kinds, "command")
 	case r < wKnown+wCmd+c.Positional:
 		w := sampled(t, "word", wordPool)
+		if len(a.cur.ChildSeq) > 0 && rapid.IntRange(0, 5).Draw(t, "cmdprefixword") == 0 {
+			// a plain word that merely starts like a command name (commands are never abbreviated), or continues one
+			n := sampled(t, "cmdprefixof", a.cur.ChildSeq)
+			if r := []rune(n); len(r) > 1 && rapid.Bool().Draw(t, "cmdprefixshorter") {
+				w = string(r[:rapid.IntRange(1, len(r)-1).Draw(t, "cmdprefixlen")])
+			} else {
+				w = n + "x"
+			}
+		}
 		if ch, ok := a.cur.Children[w]; ok {
 			// the word is a command name here: it is a command token
 			if a.AvoidLevel != nil && a.AvoidLevel(ch) {
